@@ -94,6 +94,8 @@ Do(Dirs, s, act) ==
             LET r == IterFrom(s, act.o, 0, <<>>) IN [s |-> r.s, res |-> <<"trees", r.out>>]
       [] act.a = "map" ->                      \* list(population.map(fn))
             LET r == IterFrom(s, act.o, 0, <<>>) IN [s |-> r.s, res |-> <<"trees", r.out>>]
+      [] act.a = "ptransform" ->               \* PopulationTransform(f)(population): one transformed tree per tree, in order (every member is handed out once)
+            LET r == IterFrom(s, act.o, 0, <<>>) IN [s |-> r.s, res |-> <<"trees", r.out>>]
       [] act.a = "len" -> [s |-> s, res |-> <<"len", LenOf(s, act.o)>>]
       [] act.a = "zip" ->                      \* Populations.from_swc(roots): same-named files of all roots; act.order = the common names as reported
             LET RECURSIVE Mk(_, _)
